@@ -112,21 +112,29 @@ Definition field_options (range_order : list opt) : list opt := isort o_name ble
 Definition map_entries (range_order : list (bytes * bytes)) : list (bytes * bytes) :=
   isort (fun kv => fst kv) bleb range_order.
 
+(* ---- linker.go markOptionImportsUsed: proto.RangeExtensions over an options message, stopping at the
+   first extension that does not resolve through the file's imports; the result is that error, if any *)
+Definition first_unresolved {A} (resolves : A -> bool) (range_order : list A) : option A :=
+  find (fun x => negb (resolves x)) range_order.
+
 (* ---- package loading on a PackageSet ------------------------------------------------------- *)
 (* A bundle: packages by name, each a list of source files; a file has a name, the type names it
    exports and the packages it depends on. [F] is whatever else a file carries (its content),
    [D] a produced descriptor. *)
 Section Load.
   Context {F D : Type}.
-  Record srcfile := mkFile { f_name : bytes; f_exports : list bytes; f_deps : list bytes; f_body : F }.
+  (* f_outputs: the names of the descriptors the file produces (a .j5s yields its main file and, when it
+     declares services / topics, the sub-package files; FileSummary.ProducesFiles) *)
+  Record srcfile := mkFile { f_name : bytes; f_exports : list bytes; f_deps : list bytes; f_outputs : list bytes; f_body : F }.
   Definition bundle := list (bytes * list srcfile).
 
   (* what a file's conversion may look at: the exports of its own package and of the package's
      direct dependencies (name -> defining file), as Go maps *)
   Definition exports := list (bytes * bytes).
   Record env := mkEnv { e_own : exports; e_deps : list (bytes * exports) }.
-  (* conversion + link of one file: a parameter of the skeleton *)
-  Variable convert : env -> srcfile -> D.
+  (* conversion + link of one file into the descriptor of a given output name: a parameter of the skeleton *)
+  Variable convert : env -> srcfile -> bytes -> D.
+  Definition file_outputs (e : env) (f : srcfile) : list (bytes * D) := map (fun o => (o, convert e f o)) (f_outputs f).
 
   (* a loaded package (protobuild.Package): Exports, DirectDependencies (their exports), Files *)
   Record pkg := mkPkg { p_exports : exports; p_deps : list (bytes * exports); p_files : list (bytes * D) }.
@@ -183,7 +191,8 @@ Section Load.
           | None => None
           | Some (c, ds) =>
               let e := mkEnv own ds in
-              let produced := fold_left (fun acc f => map_set (f_name f) (convert e f) acc) files [] in
+              (* pkg.Files[desc.GetName()] = ... for every descriptor of every source file, in listing order *)
+              let produced := fold_left (fun acc f => include_io (file_outputs e f) acc) files [] in
               let p := mkPkg own ds produced in
               Some (map_set name p c, p)
           end
@@ -212,3 +221,79 @@ Section Load.
                 end
     end.
 End Load.
+
+(* ---- the link phase of CompilePackage (linker.go resolveAll / resolveFile / linkResult) -------- *)
+(* After loading, CompilePackage links each of the package's files (sorted names) with a fresh
+   searchLinker: resolveFile finds the descriptor (findFileByPath over the loaded packages), returns
+   the cached SearchResult.Linked when present, else links the file's Dependency list first, in
+   order, recursively, then the file itself (linker.Link + InterpretOptions), and caches the result
+   in the SearchResult, which lives in the PackageSet across CompilePackage calls.
+   Parameters: [lookup] = findFileByPath (by C14_compile_package_spec a function of the bundle),
+   [deps_of] = a descriptor's Dependency list, [link1] = linking one file given its linked
+   dependencies.  The per-call symbol table (linker.Symbols) only detects duplicate symbols, which a
+   valid bundle does not have: it is not modelled. *)
+Section Link.
+  Context {D L : Type}.
+  Variable lookup : bytes -> option D.
+  Variable deps_of : D -> list bytes.
+  Variable link1 : D -> list L -> L.
+
+  Fixpoint link_file (fuel : nat) (cache : list (bytes * L)) (name : bytes) : option (list (bytes * L) * L) :=
+    match map_get name cache with
+    | Some l => Some (cache, l)                       (* result.Linked != nil *)
+    | None =>
+      match fuel with
+      | O => None                                     (* the Go code reports a circular file import *)
+      | S fuel' =>
+        match lookup name with
+        | None => None
+        | Some d =>
+          let step := fun (acc : option (list (bytes * L) * list L)) (dep : bytes) =>
+            match acc with
+            | None => None
+            | Some (c, ls) =>
+                match link_file fuel' c dep with
+                | None => None
+                | Some (c', l) => Some (c', ls ++ [l])
+                end
+            end in
+          match fold_left step (deps_of d) (Some (cache, [])) with
+          | None => None
+          | Some (c, ls) => let l := link1 d ls in Some (map_set name l c, l)
+          end
+        end
+      end
+    end.
+
+  (* resolveAll: the package's files in sorted-name order, threading the cache *)
+  Fixpoint link_all (fuel : nat) (cache : list (bytes * L)) (names : list bytes) : option (list (bytes * L) * list L) :=
+    match names with
+    | [] => Some (cache, [])
+    | n :: r =>
+        match link_file fuel cache n with
+        | None => None
+        | Some (c, l) => match link_all fuel c r with
+                         | None => None
+                         | Some (c', ls) => Some (c', l :: ls)
+                         end
+        end
+    end.
+
+  (* what linking a file IS, without any cache *)
+  Fixpoint spec_link (fuel : nat) (name : bytes) : option L :=
+    match fuel with
+    | O => None
+    | S fuel' =>
+      match lookup name with
+      | None => None
+      | Some d =>
+        match fold_right (fun dep acc => match spec_link fuel' dep, acc with
+                                         | Some l, Some ls => Some (l :: ls)
+                                         | _, _ => None
+                                         end) (Some []) (deps_of d) with
+        | Some ls => Some (link1 d ls)
+        | None => None
+        end
+      end
+    end.
+End Link.
